@@ -5,10 +5,10 @@
   `localHours` (PV/Model/Look.lean) and `PV.Astro.observerPosition` (PV/Model/Astro.lean) against
   the published WGS-84 formulas `PV.Spec.Topo` (DESIGN.md Appendix D).
 
-  What is NOT proved here: that the `while True` loop terminates / that its exit value is within
-  a stated distance of the fixed point (contraction of the body), and the float round trip; the
-  round-trip theorems below are conditional on an exact fixed point of the body, as announced in
-  DESIGN.md ("Partial").
+  The round-trip theorems in this file are conditional on an exact fixed point of the loop body; that the
+  `while True` loop terminates, that its exit value is within 7.1e-13 rad of the fixed point, and the round trip of
+  the value actually returned (polar axis included) are in PV/Props/C04Conv.lean.  Not proved: the float round trip.
+  The altitude is the form `r cos lat + z sin lat − √(1 − e² sin² lat)` the code uses since the polar-axis repair.
 -/
 import PV.Lemmas.C04
 namespace PV.C04
@@ -136,17 +136,27 @@ theorem utc2local_eq (lonDeg : ℝ) : localHours lonDeg = lonDeg / 15 := by
 
 /-! ### (7) round trip at a fixed point of the latitude body -/
 
-/-- If `lat` is a fixed point of the loop body (`r > 0`, i.e. off the polar axis) then `|lat| < π/2`
-    and, with `c = 1/√(1−e² sin² lat)` and `alt' = r / cos lat − c` (earth radii, as the code computes
-    before `alt *= A`), the meridian-plane WGS-84 formulas give back `(r, z)` exactly. -/
-theorem fixpoint_roundtrip (z r lat : ℝ) (hr : 0 < r) (hfix : (latStep z r lat).1 = lat) :
-    (-(π / 2) < lat ∧ lat < π / 2) ∧
+/-- the altitude `get_lonlatalt` forms after the loop (earth radii, before `alt *= A`) -/
+theorem altitude_formula (z r lat : ℝ) :
+    altOf z r lat = r * cos lat + z * sin lat - √(1 - ecc2 wgs84F * sin lat ^ 2) := altOf_real z r lat
+
+/-- If `lat` is a fixed point of the loop body then, with `c = 1/√(1−e² sin² lat)` and the altitude
+    `alt' = r cos lat + z sin lat − √(1−e² sin² lat)` the code computes, the meridian-plane WGS-84 formulas
+    give back `(r, z)` exactly — for every `(r, z)`, the polar axis `r = 0` included; off the axis `|lat| < π/2`. -/
+theorem fixpoint_roundtrip (z r lat : ℝ) (hfix : (latStep z r lat).1 = lat) :
+    (0 < r → -(π / 2) < lat ∧ lat < π / 2) ∧
     (latStep z r lat).2 = 1 / √(1 - ecc2 wgs84F * sin lat ^ 2) ∧
-    ((latStep z r lat).2 + (r / cos lat - (latStep z r lat).2)) * cos lat = r ∧
-    ((latStep z r lat).2 * (1 - ecc2 wgs84F) + (r / cos lat - (latStep z r lat).2)) * sin lat = z := by
-  rw [latStep_fst] at hfix
-  obtain ⟨h1, h2, h3, h4⟩ := fixpoint_core _ _ z r lat hr hfix
-  exact ⟨⟨h1, h2⟩, latStep_snd z r lat, h3, h4⟩
+    ((latStep z r lat).2 + altOf z r lat) * cos lat = r ∧
+    ((latStep z r lat).2 * (1 - ecc2 wgs84F) + altOf z r lat) * sin lat = z := by
+  have hs := latStep_snd z r lat
+  rw [latStep_fst, hs] at hfix
+  obtain ⟨h3, h4⟩ := fixpoint_core _ z r lat (denominator_pos lat) hfix
+  refine ⟨fun hr => ?_, hs, ?_, ?_⟩
+  · have hb := arg_range_of_re_pos hr (z + 1 / √(1 - ecc2 wgs84F * sin lat ^ 2) * ecc2 wgs84F * sin lat)
+    rw [hfix] at hb
+    exact hb
+  · rw [hs, altOf_real]; exact h3
+  · rw [hs, altOf_real]; exact h4
 
 /-- the code normalises positions by XKMPER = 6378.135 km but rescales the altitude by A = 6378.137 km:
     relative mismatch `A/XKMPER − 1 ≈ 3.136e-7` -/
@@ -155,46 +165,34 @@ theorem unit_mismatch :
   simp only [A, Gen.orbital_A, Gen.orbital_XKMPER, r_ofSci]
   constructor <;> norm_num
 
-/-- Full 3-D round trip at a fixed point.  `pn` = position in earth radii (km / XKMPER), not on the
-    polar axis; `lon`, `lat`, `alt` are exactly the radian/kilometre values `get_lonlatalt` forms
+/-- Full 3-D round trip at a fixed point.  `pn` = position in earth radii (km / XKMPER), anywhere (polar axis
+    included); `lon`, `lat`, `alt` are exactly the radian/kilometre values `get_lonlatalt` forms
     (`lonLatAlt_unfold` below).  Converting (lon, lat, alt) back with the WGS-84 formulas and the rotation
     by GMST gives `A · pn`, whereas the true position in km is `XKMPER · pn`: the result is the position
     scaled by `A/XKMPER` (`unit_mismatch`), i.e. a relative error of 3.14e-7 < 2e-6. -/
 theorem subpoint_roundtrip_of_fixpoint (d : ℝ) (pn : V3 ℝ) (lat : ℝ)
-    (hxy : pn.x ≠ 0 ∨ pn.y ≠ 0)
     (hfix : (latStep pn.z (√(pn.x ^ 2 + pn.y ^ 2)) lat).1 = lat) :
     geodeticToCartesian wgs84A wgs84F lat
         (Astro.gmst d + wrapLon (Complex.arg ⟨pn.x * 6378.135, pn.y * 6378.135⟩ - Astro.gmst d))
-        ((√(pn.x ^ 2 + pn.y ^ 2) / cos lat - (latStep pn.z (√(pn.x ^ 2 + pn.y ^ 2)) lat).2) * wgs84A)
+        (altOf pn.z (√(pn.x ^ 2 + pn.y ^ 2)) lat * wgs84A)
       = smul wgs84A pn := by
-  have hr : 0 < √(pn.x ^ 2 + pn.y ^ 2) := by
-    apply Real.sqrt_pos.2
-    rcases hxy with h | h
-    · have := sq_pos_of_ne_zero h; nlinarith [sq_nonneg pn.y]
-    · have := sq_pos_of_ne_zero h; nlinarith [sq_nonneg pn.x]
-  obtain ⟨-, hc, h3, h4⟩ := fixpoint_roundtrip pn.z _ lat hr hfix
-  obtain ⟨hcos, hsin⟩ := cos_sin_atan2_scaled (x := pn.x) (y := pn.y) (k := 6378.135) (by norm_num) hr
+  obtain ⟨-, hc, h3, h4⟩ := fixpoint_roundtrip pn.z _ lat hfix
+  obtain ⟨hx, hy⟩ := xy_polar (Astro.gmst d) pn.x pn.y
   set r := √(pn.x ^ 2 + pn.y ^ 2)
   set c := (latStep pn.z r lat).2
   set g := Astro.gmst d
-  set a := Complex.arg ⟨pn.x * 6378.135, pn.y * 6378.135⟩
+  set θ := g + wrapLon (Complex.arg ⟨pn.x * 6378.135, pn.y * 6378.135⟩ - g)
+  set alt := altOf pn.z r lat
   have hN : primeVertical wgs84A wgs84F lat = wgs84A * c := by
     rw [hc]; unfold primeVertical; ring
-  have hct : cos (g + wrapLon (a - g)) = pn.x / r := by
-    rw [cos_add, cos_wrapLon, sin_wrapLon, ← cos_add, add_sub_cancel, hcos]
-  have hst : sin (g + wrapLon (a - g)) = pn.y / r := by
-    rw [sin_add, cos_wrapLon, sin_wrapLon, ← sin_add, add_sub_cancel, hsin]
-  simp only [geodeticToCartesian, smul, hN, hct, hst]
-  have hr' := hr.ne'
+  simp only [geodeticToCartesian, smul, hN]
   congr 1
-  · have : (wgs84A * c + (r / cos lat - c) * wgs84A) * cos lat * (pn.x / r)
-        = wgs84A * ((c + (r / cos lat - c)) * cos lat) * (pn.x / r) := by ring
-    rw [this, h3]; field_simp
-  · have : (wgs84A * c + (r / cos lat - c) * wgs84A) * cos lat * (pn.y / r)
-        = wgs84A * ((c + (r / cos lat - c)) * cos lat) * (pn.y / r) := by ring
-    rw [this, h3]; field_simp
-  · have : (wgs84A * c * (1 - ecc2 wgs84F) + (r / cos lat - c) * wgs84A) * sin lat
-        = wgs84A * ((c * (1 - ecc2 wgs84F) + (r / cos lat - c)) * sin lat) := by ring
+  · have : (wgs84A * c + alt * wgs84A) * cos lat * cos θ = wgs84A * (((c + alt) * cos lat) * cos θ) := by ring
+    rw [this, h3, ← hx]
+  · have : (wgs84A * c + alt * wgs84A) * cos lat * sin θ = wgs84A * (((c + alt) * cos lat) * sin θ) := by ring
+    rw [this, h3, ← hy]
+  · have : (wgs84A * c * (1 - ecc2 wgs84F) + alt * wgs84A) * sin lat
+        = wgs84A * ((c * (1 - ecc2 wgs84F) + alt) * sin lat) := by ring
     rw [this, h4]
 
 /-- the expressions used in `subpoint_roundtrip_of_fixpoint` are the ones the model computes:
@@ -205,11 +203,11 @@ theorem lonLatAlt_unfold (d : ℝ) (pn : V3 ℝ) (fuel : ℕ) :
         (fun res =>
           (wrapLon (Complex.arg ⟨pn.x * 6378.135, pn.y * 6378.135⟩ - Astro.gmst d) * (180 / π),
            res.1 * (180 / π),
-           (√(pn.x ^ 2 + pn.y ^ 2) / cos res.1 - res.2.1) * wgs84A,
+           altOf pn.z (√(pn.x ^ 2 + pn.y ^ 2)) res.1 * wgs84A,
            res.2.2)) := by
   unfold lonLatAlt
   simp only [Gen.orbital_XKMPER, A, Gen.orbital_A, wgs84A, r_rad2deg, r_atan2, r_sqrt, r_sq, r_sub,
-    r_mul, r_div, r_cos, r_ofSci]
+    r_mul, r_ofSci]
   cases latLoop pn.z (√(pn.x ^ 2 + pn.y ^ 2)) fuel (Complex.arg ⟨√(pn.x ^ 2 + pn.y ^ 2), pn.z⟩) with
   | none => rfl
   | some res => obtain ⟨l, c, n⟩ := res; rfl
@@ -227,10 +225,20 @@ example : (latStep 0 1 (0 : ℝ)).1 = 0 ∧ (0 : ℝ) < 1 := by
   rw [latStep_fst, sin_zero, mul_zero, add_zero]
   exact (Complex.arg_ofReal_of_nonneg (x := 1) zero_le_one)
 
-/-- `subpoint_roundtrip_of_fixpoint` hypotheses are satisfiable: `pn = (1, 0, 0)`, `lat = 0` -/
-example : ((⟨1, 0, 0⟩ : V3 ℝ).x ≠ 0 ∨ (⟨1, 0, 0⟩ : V3 ℝ).y ≠ 0) ∧
+/-- … and on the polar axis `lat = π/2` is a fixed point for `z > 0` (`r = 0`) -/
+example : (latStep 1.1 0 (π / 2 : ℝ)).1 = π / 2 := by
+  rw [latStep_fst, latStep_snd, sin_pi_div_two]
+  apply Complex.arg_eq_pi_div_two_iff.2
+  refine ⟨rfl, ?_⟩
+  have h1 := ecc2_lt_one
+  have h2 : 0 < 1 - ecc2 wgs84F * 1 ^ 2 := by nlinarith
+  have h3 : 0 < 1 / √(1 - ecc2 wgs84F * 1 ^ 2) := by positivity
+  show 0 < (1.1 : ℝ) + 1 / √(1 - ecc2 wgs84F * 1 ^ 2) * ecc2 wgs84F * 1
+  nlinarith [mul_pos h3 h1.2]
+
+/-- `subpoint_roundtrip_of_fixpoint` hypothesis is satisfiable: `pn = (1, 0, 0)`, `lat = 0` -/
+example :
     (latStep (⟨1, 0, 0⟩ : V3 ℝ).z (√((⟨1, 0, 0⟩ : V3 ℝ).x ^ 2 + (⟨1, 0, 0⟩ : V3 ℝ).y ^ 2)) 0).1 = 0 := by
-  refine ⟨Or.inl one_ne_zero, ?_⟩
   rw [latStep_fst, sin_zero, mul_zero, add_zero]
   have : √((1 : ℝ) ^ 2 + 0 ^ 2) = 1 := by norm_num
   rw [this]
